@@ -22,7 +22,9 @@ From GI Require Import Gen.ProxyConsts Proxy.Proxy Proxy.ProxyStrings Proxy.Prox
 From GI Require Import Gen.ParConsts Par.ParWork Par.ParLib Par.ParCache Par.ParCacheProofs.
 Import ListNotations.
 
-Definition fval_id (k : nat) : nat := k.
+Definition fval_id (k : nat) : option nat := Some k.
+(* f never calls Do itself: archiveCache's f reads files, zipCache's f zips an archive it was given *)
+Definition deps0 (k : nat) : list nat := [].
 
 Section Refine.
 Variable A : Type.
@@ -33,7 +35,7 @@ Hypothesis name_ka : forall n, name_of (ka n) = n.
 Hypothesis name_kz : forall n, name_of (kz n) = n.
 Variable Zf : bytes -> zipres.           (* the zip every request computes for an archive name *)
 
-Notation cstepF := (cstep fval_id).
+Notation cstepF := (cstep fval_id deps0).
 
 (* the calls a handler makes when every Do returns what its own f computes *)
 Fixpoint calls (p : prog A) : list call :=
@@ -76,7 +78,7 @@ Definition astep (st : astate) (t : nat) : option astate :=
         match next_key h with
         | None => None                                            (* the handler has returned *)
         | Some key =>
-            Some (mkA (mkC (set_nth t (mkThr (DLoad key) [] (rets th)) (thrs (acs st)))
+            Some (mkA (mkC (set_nth t (mkThr (DLoad key) [] [] (rets th) (nrets th)) (thrs (acs st)))
                            (ents (acs st)) (plain (acs st)))
                       (hs st))
         end
@@ -102,7 +104,7 @@ Fixpoint arun (sch : list nat) (st : astate) : option astate :=
   end.
 
 Definition ainit (ps : list (prog A)) : astate :=
-  mkA (mkC (map (fun _ => mkThr Idle [] []) ps) (fun _ => entry0) []) (map Some ps).
+  mkA (mkC (map (fun _ => mkThr Idle [] [] [] []) ps) (fun _ => entry0) []) (map Some ps).
 
 (* ------------------------------------------------------------------ one cstep on two states that
    differ only in what the threads will call next *)
@@ -114,7 +116,7 @@ Definition apply_upd (th : thr) (u : tupd) : thr :=
 Lemma cstep_lockstep : forall sa sc t tha thc key,
   ents sa = ents sc -> plain sa = plain sc ->
   nth_error (thrs sa) t = Some tha -> nth_error (thrs sc) t = Some thc ->
-  tpc tha = tpc thc -> cur (tpc tha) = [CDo key] ->
+  tpc tha = tpc thc -> cur (tpc tha) = [CDo key] -> stack tha = [] -> stack thc = [] ->
   (cstepF sa t = None /\ cstepF sc t = None) \/
   (exists sa' sc' u, cstepF sa t = Some sa' /\ cstepF sc t = Some sc' /\
      ents sa' = ents sc' /\ plain sa' = plain sc' /\
@@ -125,7 +127,7 @@ Lemma cstep_lockstep : forall sa sc t tha thc key,
      | TRet c v => c = CDo key
      end).
 Proof.
-  intros sa sc t tha thc key He Hp Ha Hc Hpc Hcur.
+  intros sa sc t tha thc key He Hp Ha Hc Hpc Hcur Hsa Hsc.
   unfold cstep. rewrite Ha, Hc. rewrite <- Hpc. rewrite <- He, <- Hp.
   destruct (tpc tha) eqn:Et; cbn [cur] in Hcur; try discriminate; inversion Hcur; subst.
   - (* DLoad *) right. destruct (present (ents sa key)); eexists _, _, (TGoto _);
@@ -136,11 +138,13 @@ Proof.
     right. eexists _, _, (TGoto _); repeat split; reflexivity.
   - right. destruct (isd (ents sa key)); eexists _, _, (TGoto _); repeat split; reflexivity.
   - right. eexists _, _, (TGoto _); repeat split; reflexivity.
+  - (* DInF: f has no nested Do *)
+    right. unfold deps0. replace (nth_error (@nil nat) j) with (@None nat) by (destruct j; reflexivity).
+    eexists _, _, (TGoto _); repeat split; reflexivity.
   - right. eexists _, _, (TGoto _); repeat split; reflexivity.
   - right. eexists _, _, (TGoto _); repeat split; reflexivity.
   - right. eexists _, _, (TGoto _); repeat split; reflexivity.
-  - right. eexists _, _, (TGoto _); repeat split; reflexivity.
-  - (* DRead *) right. eexists _, _, (TRet _ _); repeat split; reflexivity.
+  - (* DRead *) right. unfold do_return. rewrite Hsa, Hsc. eexists _, _, (TRet _ _); repeat split; reflexivity.
 Qed.
 
 (* ------------------------------------------------------------------ the simulation *)
@@ -150,10 +154,10 @@ Definition Zl : list (bytes * zipres) := flat_map (zip_ops d) ps.
 Hypothesis Zl_functional : functional Zl.
 Hypothesis Zf_agrees : forall n v, In (n, v) Zl -> Zf n = v.
 
-Notation creach := (creachable fval_id (map calls ps)).
+Notation creach := (creachable fval_id deps0 (map calls ps)).
 
 Definition thr_rel (p : prog A) (tha thc : thr) (ho : option (prog A)) : Prop :=
-  rest tha = [] /\ rets tha = rets thc /\
+  rest tha = [] /\ rets tha = rets thc /\ stack tha = [] /\ stack thc = [] /\
   exists h, ho = Some h /\ run_own d h = run_own d p /\ incl (zip_ops d h) Zl /\
     ((tpc tha = Idle /\ tpc thc = fst (start (calls h)) /\ rest thc = snd (start (calls h)))
      \/ (tpc tha = tpc thc /\ exists key h', cur (tpc tha) = [CDo key] /\ next_key h = Some key /\
